@@ -504,6 +504,38 @@ Proof.
     inversion H; subst st'. apply Same. reflexivity.
 Qed.
 
+(* how far the maker's counter can move in one step (nothing without use_replace) *)
+Definition step_cost (d : dact) : N :=
+  match d with DTextIn _ t | DTextAfter _ t => N.of_nat (length (norm_if c (otxt t))) | _ => 0%N end.
+
+Theorem step_ctr st d st' :
+  tinv (fs_ph st) -> step_ok rootns st d -> room_ok st d -> handle_d c o rootns st d = FOk st' ->
+  (Placeholder.ctr (fs_ph st') <= Placeholder.ctr (fs_ph st) + step_cost d)%N.
+Proof.
+  intros Hph0 Hok Hroom H.
+  assert (Same : fs_ph st' = fs_ph st -> (Placeholder.ctr (fs_ph st') <= Placeholder.ctr (fs_ph st) + step_cost d)%N).
+  { intros E. rewrite E. lia. }
+  destruct d; cbn [handle_d step_ok room_ok] in *;
+    try (unfold handle_DeleteNode, handle_InsertNode, handle_RenameNode, handle_UpdateAttrib, handle_DeleteAttrib,
+           handle_InsertAttrib, handle_RenameAttrib in H;
+         apply fbind_ok in H as (p & _ & H); apply Same, (upd_node_ph _ _ _ _ H)).
+  - unfold handle_MoveNode in H. apply fbind_ok in H as (pn & _ & H). apply fbind_ok in H as (cp & _ & H).
+    apply fbind_ok in H as (pt & _ & H). cbv zeta in H. apply fbind_ok in H as (tg0 & _ & H). inversion H; subst st'. apply Same. reflexivity.
+  - destruct Hok as [Htxt Hold]. unfold handle_UpdateTextIn in H. apply fbind_ok in H as (p & Ep & H).
+    unfold node_at in H. destruct (get_at (fs_tree st) p) as [n|] eqn:G; [|discriminate]. cbn [fbind] in H.
+    destruct (is_inserted n) eqn:Ei; [inversion H; subst st'; apply Same; reflexivity|].
+    destruct (make_diff_tags_gen c o (fs_ph st) _ _ false Hph0 (Hold p n Ep G Ei) Htxt Hroom)
+      as (s' & ps & Em & _ & _ & _ & _ & _ & _ & _ & Hc).
+    rewrite Em in H. cbn [fbind] in H. inversion H; subst st'. cbn [fs_ph step_cost]. exact Hc.
+  - destruct Hok as [Htxt Hold]. unfold handle_UpdateTextAfter in H. apply fbind_ok in H as (p & Ep & H).
+    unfold node_at in H. destruct (get_at (fs_tree st) p) as [n|] eqn:G; [|discriminate]. cbn [fbind] in H.
+    destruct (Hold p n Ep G) as [Hp Hpl]. destruct p as [|i p]; [congruence|].
+    destruct (make_diff_tags_gen c o (fs_ph st) _ _ true Hph0 Hpl Htxt Hroom) as (s' & ps & Em & _ & _ & _ & _ & _ & _ & _ & Hc).
+    rewrite Em in H. cbn [fbind] in H. inversion H; subst st'. cbn [fs_ph step_cost]. exact Hc.
+  - unfold handle_InsertNamespace in H. inversion H; subst st'. apply Same. reflexivity.
+  - inversion H; subst st'. apply Same. reflexivity.
+Qed.
+
 Theorem step_reject st d st' :
   winv (fs_tree st) -> tinv (fs_ph st) -> sext (fs_ph st') S -> step_ok rootns st d -> room_ok st d ->
   handle_d c o rootns st d = FOk st' ->
